@@ -6,7 +6,7 @@ LEVEL_NOTE = ('assumes: abstract stream and formatter contracts (write appends, 
 from . import io_contracts as ioc
 TARGETS = [ioc.M_OUT + ":Output." + m for m in ("write", "write_line", "write_raw", "write_line_raw")]
 TARGETS += [ioc.M_IO + ":IO." + m for m in ("write_line", "write_line_raw", "error_line", "error_line_raw")]
-TARGETS += [ioc.M_SEC + ":SectionOutput.write", {"qual": ioc.M_OUT + ":Output.write_line", "self_cls": "SectionOutput"}]
+TARGETS += [ioc.M_SEC + ":SectionOutput.write", ioc.M_SEC + ":SectionOutput.clear", {"qual": ioc.M_OUT + ":Output.write_line", "self_cls": "SectionOutput"}]
 from . import style_contracts as sc
 TARGETS += [sc.M_SC + ":StyleConverter.convert", sc.ANSI_FORMAT_STACK]
 for _n in (1, 2):
